@@ -163,7 +163,9 @@ INVS = {
                     "term": {"n": {"loc": "l4", "text": None}, "m": {"loc": "l5", "text": None}}},
             "py": {"label": {"n": {"loc": "l6", "text": None}},
                    "func": {"n.x": {"loc": "l7", "text": "F"}, "nax": {"loc": "l8", "text": None}},
-                   "function": {"n": {"loc": "l9", "text": None}}, "fun": {"n": {"loc": "l10", "text": None}}},
+                   "function": {"n": {"loc": "l9", "text": None}}, "fun": {"n": {"loc": "l10", "text": None}},
+                   # (Sphinx itself has a type with a colon: rst:directive:option)
+                   "class": {"n": {"loc": "l11", "text": None}}, "data:class": {"n": {"loc": "l12", "text": None}, "m": {"loc": "l1", "text": None}}},
         },
     },
     "ke*": {
@@ -175,11 +177,12 @@ INVS = {
     },
 }
 MENU = {
-    "invs": [None, "key", "*", "ke*", "*y", "ke\\*", "zz"],
-    "domains": [None, "std", "*", "p*", "*d", "p\\*", "zz"],
-    "otypes": [None, "label", "*", "f*", "*m", "\\*", "zz", "func", "fun"],
+    # (the empty pattern is a pattern, not an omitted one: it matches only an empty coordinate)
+    "invs": [None, "key", "*", "ke*", "*y", "ke\\*", "zz", ""],
+    "domains": [None, "std", "*", "p*", "*d", "p\\*", "zz", ""],
+    "otypes": [None, "label", "*", "f*", "*m", "\\*", "zz", "func", "fun", "", "class", "*:class"],
     # (types 'fun', 'func', 'function' exist: a pattern must match its coordinate in FULL)
-    "targets": [None, "n", "*", "n*", "*x", "n\\*x", "zz", "n.x"],
+    "targets": [None, "n", "*", "n*", "*x", "n\\*x", "zz", "n.x", ""],
 }
 
 
@@ -199,10 +202,10 @@ def model_filter(data, invs, domains, otypes, targets):
 
 class FilterSystem(System):
     name = "filter"
-    description = "2 generated inventories (names with '*' and '.') x every filter quadruple from a 7/7/7/8 menu; native and Sphinx representation"
+    description = "2 generated inventories (names with '*' and '.', a type with ':') x every filter quadruple from an 8/8/12/9 menu (incl. the empty pattern); native and Sphinx representation"
 
     def bounds(self):
-        return {"quadruples": 7 * 7 * 9 * 8}
+        return {"quadruples": len(MENU["invs"]) * len(MENU["domains"]) * len(MENU["otypes"]) * len(MENU["targets"])}
 
     def alphabet(self):
         return MENU
@@ -248,6 +251,61 @@ class FilterSystem(System):
                 break
         total = len(model_filter(INVS, None, None, None, None))
         return Obs(digest=tuple(exp), nontrivial=0 < len(exp) < total, violations=viol, transitions=2, validated=2)
+
+
+class CliSystem(System):
+    """myst-inv applies the same filters: its output is the model's selection, regrouped"""
+
+    name = "cli"
+    description = "the 'key' inventory written as a v2 file x every (domain, type, name, location) filter of the myst-inv command line: printed objects == model selection"
+
+    def prepare(self, ctx):
+        from ..models.invfile import make_v2
+
+        self.path = ctx.scratch / "c19cli.inv"
+        lines = []
+        for d, dd in INVS["key"]["objects"].items():
+            for t, td in dd.items():
+                for n, item in td.items():
+                    lines.append(f"{n} {d}:{t} 1 {item['loc']} {item['text'] or '-'}")
+        self.path.write_bytes(make_v2("P1", "1", lines))
+
+    def bounds(self):
+        return {"quadruples": (len(MENU["domains"]) - 1) * (len(MENU["otypes"]) - 1) * (len(MENU["targets"]) - 1) * 5}
+
+    def rule(self):
+        return "one case = (domain, type, name, loc) arguments (None = option not given); non-trivial = selects >= 1 and not all entries"
+
+    def cases(self):
+        locs = [None, "l1", "l*", "*1", "zz"]
+        for q in itertools.product(MENU["domains"], MENU["otypes"], MENU["targets"], locs):
+            yield list(q)
+
+    def run(self, q):
+        import contextlib
+        import io
+        import json
+
+        d, t, n, loc = q
+        args = [str(self.path), "-f", "json"]
+        for flag, val in (("-d", d), ("-o", t), ("-n", n), ("-l", loc)):
+            if val is not None:
+                args += [flag, val]
+        out = io.StringIO()
+        with contextlib.redirect_stdout(out):
+            inv.inventory_cli(args)
+        got = json.loads(out.getvalue())["objects"]
+        exp: dict = {}
+        for _, dd, tt, nn, lc, tx in model_filter({"": INVS["key"]}, None, d, t, n):
+            if loc and not wildcard.match(lc, loc):  # (an empty --loc is documented as "no filter")
+                continue
+            exp.setdefault(dd, {}).setdefault(tt, {})[nn] = {"loc": lc, "text": tx}
+        viol = []
+        if got != exp:
+            viol.append(violation("filter", {"clause": "filter", "repr": "cli"}, f"myst-inv {args[1:]} printed {got}, expected {exp}", quadruple=q))
+        total = len(model_filter({"": INVS["key"]}, None, None, None, None))
+        size = sum(len(x) for dd in exp.values() for x in dd.values())
+        return Obs(digest=json.dumps(exp, sort_keys=True), nontrivial=0 < size < total, violations=viol, transitions=1, validated=1)
 
 
 # ------------------------------------------------------------------------------------------------
@@ -475,7 +533,7 @@ class MultiLinkSystem(LinkSystem):
 
 
 def systems(tier):
-    return [PairSystem(tier), CacheSystem(tier), FilterSystem(tier), LinkSystem(tier), MultiLinkSystem(tier)]
+    return [PairSystem(tier), CacheSystem(tier), FilterSystem(tier), CliSystem(tier), LinkSystem(tier), MultiLinkSystem(tier)]
 
 
 def vacuity(results):
